@@ -2,7 +2,7 @@
 """seedstore.py <ID> <how-confirmed> <check=outcome>... : store a confirmed seeded change from /tmp/seed-<ID> under seeded/<ID>/"""
 import sys, os, json, shutil
 i = sys.argv[1]; how = sys.argv[2]; det = dict(a.split('=', 1) for a in sys.argv[3:])
-src = '/tmp/seed-%s' % i; dst = os.path.join(os.path.dirname(os.path.dirname(os.path.abspath(__file__))), 'seeded', i)
+src = os.environ.get('SEEDSRC', '/tmp/seed-%s' % i); dst = os.path.join(os.path.dirname(os.path.dirname(os.path.abspath(__file__))), 'seeded', os.environ.get('SEEDNAME', i))
 os.makedirs(dst, exist_ok=True)
 for f in os.listdir(src):
     if f in ('p.diff',) or f.startswith('foreign'): continue
